@@ -71,6 +71,28 @@ CHECKS["C20"] = dict(
     note="Trusted: Lean kernel, harness, driver; strconv.Atoi mirrored by the model's integer parser. Cluster-mode SELECT goes through the replicated log and is not covered here.",
 )
 
+CHECKS["C05"] = dict(
+    category="proof", design_ref="DESIGN.md §6 C05", engine="exec+conc",
+    technique="Lean 4 theorems (strict 2PL => atomic block execution for any thread count/interleaving; no lost increment; one SETNX winner) + trace-level discipline check of every command (hook H2) + concurrent exploration (porcupine, lockset, -race)",
+    text="Cc.atomicity: for any number of threads running block programs that satisfy the lock discipline, every micro-step interleaving yields the same "
+         "database and the same remaining programs (hence replies) as executing the blocks atomically in commit order; Cc.no_lost_increment and "
+         "Cc.setnx_one_winner state the property's examples for every n. The discipline hypothesis is tied to the code by hook H2: on every command of "
+         "the generated exec programs the recorded lock/access event trace must be accepted by TraceCheck.ok (TraceCheck.access_held: every access "
+         "inside its stripe in a sufficient mode). Concurrent histories (2-16 goroutines, colliding stripes) are additionally checked with porcupine, "
+         "a lockset monitor, quiescent invariants and the Go race detector.",
+    note="Partial: the Go scheduler and memory model are not modelled; concurrent runs are exploration. Trusted: Lean kernel, harness, hook H2, sync.RWMutex semantics.",
+)
+CHECKS["C13"] = dict(
+    category="proof", design_ref="DESIGN.md §6 C13", engine="exec+conc",
+    technique="Lean 4 theorems (ascending acquisition => progress for writer-preferring RW locks; sortedLockPoses spec; 2PL atomicity) + per-command acquisition-order check (hook H2) + concurrent multi-key exploration under a watchdog",
+    text="DL.progress: whenever a thread is unfinished some lock step is enabled, provided every thread acquires stripes in strictly ascending order — for any "
+         "stripe function, so for every key overlap and collision pattern; SetOps.lockPoses_spec: the sort/dedupe of LockMulti produces exactly such a "
+         "sequence. The hypothesis is tied to the code by hook H2 (TraceCheck.ok: ascending, two-phase, balanced) on every multi-key command of generated "
+         "programs under ShardNum 2/4/1024. Concurrent mixes of MSET/RENAME/LMOVE/SMOVE/DEL/EXISTS/MGET with single-key traffic run under a 20 s watchdog "
+         "with atomicity invariants at quiescence and under -race.",
+    note="Partial: scheduler/runtime not modelled; the concurrent runs are exploration. Trusted: Lean kernel, harness, hook H2.",
+)
+
 NOT_YET = "check not built yet in this round; see DESIGN.md §8"
 NOT_APPLICABLE = {}
 
